@@ -538,9 +538,10 @@ def fileName : Bytes := [70, 73, 76, 69]             -- "FILE"
 def parseBuf (orc : Oracle) (pe : PEnv) (c : Cfg) (text : Bytes) (k0 : Nat := 0) : ParseOut :=
   parseFp orc pe (c.setFilename (some bufName)) text k0
 
-/-- `cfg_parse_fp` on a caller-supplied stream -/
+/-- `cfg_parse_fp` on a caller-supplied stream: always reported as "FILE" (fix F41: it used to keep the name an
+earlier parse into the same context had left behind) -/
 def parseStream (orc : Oracle) (pe : PEnv) (c : Cfg) (text : Bytes) (k0 : Nat := 0) : ParseOut :=
-  parseFp orc pe (if c.info.filename.isNone then c.setFilename (some fileName) else c) text k0
+  parseFp orc pe (c.setFilename (some fileName)) text k0
 
 /-- `cfg_parse` -/
 def parseFile (orc : Oracle) (pe : PEnv) (c : Cfg) (name : Bytes) (k0 : Nat := 0) : ParseOut :=
